@@ -8,6 +8,7 @@ use std::panic::{catch_unwind, AssertUnwindSafe};
 
 mod ops_data;
 mod ops_acc;
+mod ops_adv;
 mod ops_flow;
 mod ops_registry;
 mod util;
@@ -16,6 +17,7 @@ fn dispatch(v: &Value) -> Value {
     let op = v["op"].as_str().unwrap_or("");
     match op {
         o if o.starts_with("d_") => ops_data::run(o, v),
+        "f_pres" => ops_adv::run(op, v),
         "f_acc" => ops_acc::run(op, v),
         "f_registry" => ops_registry::run(op, v),
         o if o.starts_with("f_") => ops_flow::run(o, v),
